@@ -67,6 +67,10 @@ pub struct Ctx<'a> {
     pub prog: Option<crate::emit::ProgPlan>,
     /// locals of type `Style` that the Rust sees through one style trait (`style: &impl CoreStyle`): Rust name ↦ trait
     pub views: HashMap<String, String>,
+    /// see `emit::PlanExt::view_core`
+    pub view_core: bool,
+    /// see `emit::PlanExt::join_ifs`
+    pub join_ifs: bool,
     /// closure parameters that are sub-programs (they take the tree first): Rust name ↦ (Lean name, argument types, result type)
     pub sub_programs: HashMap<String, (String, Vec<Ty>, Ty)>,
     /// opt-in widening for slices / iterator chains / `for` over `&mut [T]` / `loop` under fuel (loops.rs; off by default)
@@ -120,6 +124,8 @@ impl<'a> Ctx<'a> {
             mut_param: None,
             prog: None,
             views: HashMap::new(),
+            view_core: false,
+            join_ifs: false,
             sub_programs: HashMap::new(),
             ext: Default::default(),
         }
@@ -309,6 +315,34 @@ impl<'a> Ctx<'a> {
                 _ => Err("unsupported unary operator".into()),
             },
             Expr::Binary(b) => self.binary(b, expect),
+            // `if let PAT = e { a } else b` as a value  ⇒  `match e with | PAT => a | _ => b` (the complement of `Some(x)` in an `Option`
+            // is written `none`, as in `matches!`) — absmod.rs (grid/alignment.rs)
+            Expr::If(i) if matches!(&*i.cond, Expr::Let(_)) => {
+                let l = match &*i.cond {
+                    Expr::Let(l) => l,
+                    _ => unreachable!(),
+                };
+                let (sc, st) = self.expr(&l.expr, &Ty::Unknown)?;
+                let saved = self.locals.clone();
+                let alts = self.pat(&l.pat, &st, false);
+                let a = match &alts {
+                    Ok(_) => self.block_value(&i.then_branch.stmts, expect),
+                    Err(e) => Err(e.clone()),
+                };
+                self.locals = saved;
+                let alts = alts?;
+                let (a, at) = a?;
+                let eb = i.else_branch.as_ref().ok_or("`if let` without `else` used as a value")?;
+                let (b, bt) = self.expr(&eb.1, &at.join(expect))?;
+                if !at.compatible(&bt) {
+                    return Err(format!("branches of `if let` have different types {:?} / {:?}", at, bt));
+                }
+                let some_var = |p: &String| p.strip_prefix("(some ").and_then(|r| r.strip_suffix(')')).map(|v| !v.is_empty() && v.chars().all(|c| c.is_alphanumeric() || c == '_' || c == '\'')).unwrap_or(false);
+                let complement = if matches!(st, Ty::Opt(_)) && alts.len() == 1 && some_var(&alts[0]) { "none" } else { "_" };
+                let mut arms: Vec<(Vec<String>, L)> = alts.into_iter().map(|p| (vec![p], a.clone())).collect();
+                arms.push((vec![complement.into()], b));
+                Ok((L::Match(vec![sc], arms), at.join(&bt)))
+            }
             Expr::If(i) => {
                 let (c, ct) = self.expr(&i.cond, &Ty::Bool)?;
                 if ct != Ty::Bool {
@@ -716,6 +750,10 @@ impl<'a> Ctx<'a> {
             }
             return Err(format!("unresolved function `{name}`"));
         }
+        // `Option::Some` (absmod.rs)
+        if segs.len() == 2 && segs[0] == "Option" && name == "Some" && ptys.len() == 1 {
+            return Ok((L::a("some"), Ty::opt(ptys[0].clone())));
+        }
         let tname = &segs[segs.len() - 2];
         let t = self.type_of_segment(tname).ok_or(format!("function of unknown type `{tname}`"))?;
         let head = t.head();
@@ -940,6 +978,29 @@ impl<'a> Ctx<'a> {
         Ok((L::Fun(ps, Box::new(b)), bt))
     }
 
+    /// `|| body` (closure literal without parameters, pure): the value of its body, translated like a function body of result type `ty`
+    /// (early `return`s push the rest into the other branch) — absmod.rs
+    pub(crate) fn thunk_value(&mut self, e: &Expr, ty: &Ty) -> R<L> {
+        let c = match strip(e) {
+            Expr::Closure(c) if c.inputs.is_empty() => c,
+            _ => return Err("a closure literal without parameters is required here".into()),
+        };
+        let saved_locals = self.locals.clone();
+        let saved = (self.prog.take(), self.ret, self.ret_ty.clone(), self.mut_param.take());
+        self.ret = RetMode::Plain;
+        self.ret_ty = ty.clone();
+        let r = match &*c.body {
+            Expr::Block(b) => self.seq(&b.block.stmts, true, &[]),
+            other => self.tail_value(other),
+        };
+        self.locals = saved_locals;
+        self.prog = saved.0;
+        self.ret = saved.1;
+        self.ret_ty = saved.2;
+        self.mut_param = saved.3;
+        r
+    }
+
     fn method_call(&mut self, m: &syn::ExprMethodCall, expect: &Ty) -> R<(L, Ty)> {
         let name = m.method.to_string();
         let args: Vec<&Expr> = m.args.iter().collect();
@@ -968,7 +1029,8 @@ impl<'a> Ctx<'a> {
         };
         // translated methods first
         if let Some(sigs) = self.w.fns.get(&(rt.head(), name.clone())) {
-            let sigs: Vec<FnSig> = sigs.iter().filter(|s| view.as_ref().map(|v| s.lean.contains(&format!(".{v}."))).unwrap_or(true)).cloned().collect();
+            let view_core = self.view_core;
+            let sigs: Vec<FnSig> = sigs.iter().filter(|s| view.as_ref().map(|v| s.lean.contains(&format!(".{v}.")) || (view_core && s.lean.contains(".CoreStyle."))).unwrap_or(true)).cloned().collect();
             for sig in sigs.clone() {
                 if let Some(st) = &sig.self_ty {
                     let mut sub = HashMap::new();
@@ -1016,6 +1078,17 @@ impl<'a> Ctx<'a> {
             (Ty::Opt(_), "or") => {
                 let (d, dt) = one(self, &rt)?;
                 Ok((L::app("Option.or", vec![recv, d]), rt.join(&dt)))
+            }
+            // `o.unwrap_or_else(|| body)` / `o.or_else(|| body)` with a pure closure literal without parameters (its body may use early
+            // `return`s: translated like a function body) — absmod.rs. Pure, so evaluating the default eagerly is the same value.
+            (Ty::Opt(t), "unwrap_or_else") if args.len() == 1 => {
+                let d = self.thunk_value(args[0], t)?;
+                Ok((L::app("Option.getD", vec![recv, d]), (**t).clone()))
+            }
+            (Ty::Opt(_), "or_else") if args.len() == 1 => {
+                let d = self.thunk_value(args[0], &rt)?;
+                let v = self.fresh_name("v");
+                Ok((L::Match(vec![recv], vec![(vec![format!("(some {v})")], L::app("some", vec![L::A(v.clone())])), (vec!["none".into()], d)]), rt.clone()))
             }
             (Ty::Opt(t), "map") if args.len() == 1 => {
                 let exp_ret = match expect {
